@@ -762,7 +762,11 @@ func Now() time.Time {
 	if s == nil {
 		return time.Now()
 	}
-	return s.now
+	// Simulated time flows: 100 microseconds per scheduling step on top of
+	// the explicit jumps, so that what happens later also carries a later
+	// timestamp (a file stored after another process took its "now" is
+	// newer than that "now"). A function of the schedule only.
+	return s.now.Add(time.Duration(s.steps) * 100 * time.Microsecond)
 }
 
 // Advance moves the simulated clock.
